@@ -4,6 +4,7 @@ import (
 	"bytes"
 	"fmt"
 	"strings"
+	"time"
 
 	"github.com/hedzr/logg/slog"
 
@@ -94,9 +95,19 @@ func c05main(c *Ctx) {
 			slog.RemoveFlags(slog.Lcaller)
 		}
 		otherFlags := randomOtherFlags(r)
-		warm := r.Intn(4) // 0,1: none; 2: the same logger first logs in JSON; 3: in colored mode, then is switched to logfmt
+		// 0,1: none; 2: the same logger first logs in JSON; 3: in colored mode, then is switched to logfmt; 4: it has logged in
+		// logfmt before; 5: the record before this one (another logger) died in a value that panics while being formatted
+		warm := r.Intn(6)
+		tsLayout := "" // the logger's own timestamp layout concerns the time= pair only, never a time-valued attribute
+		if r.P(25) {
+			tsLayout = gen.Pick(r, []string{time.RFC1123, time.Kitchen, "2006-01-02", time.RFC3339, "15:04:05.000", time.RFC850, "Jan _2 15:04"})
+			c.R.Add("records_with_a_logger_timestamp_layout", 1)
+		}
 		run := func(cs recCase) ([]byte, []tv) {
 			lg := newRoot(cs.name, FLogfmt, w, slog.AlwaysLevel)
+			if tsLayout != "" {
+				lg.SetTimeFormat(tsLayout)
+			}
 			switch warm {
 			case 2:
 				lg.SetJSONMode(true)
@@ -106,6 +117,10 @@ func c05main(c *Ctx) {
 				lg.SetColorMode(true)
 				lg.Info("warm-up record in another format\nsecond line")
 				lg.SetColorMode(false)
+			case 4:
+				lg.Info("warm-up record in logfmt", "w", 1, slog.Group("wg", "x", 1))
+			case 5:
+				doomedRecord(FLogfmt, w)
 			}
 			evs := capture(log, func() { lg.LogAttrs(bg, cs.lvl, cs.msg, anyAttrs(cs.kvs)...) })
 			c.R.Add("write_events", int64(len(evs)))
@@ -115,7 +130,8 @@ func c05main(c *Ctx) {
 			return evs[0].Data, c05check(evs[0].Data, cs)
 		}
 		desc := cs.desc(FLogfmt)
-		desc["other_flags"], desc["same_logger_logged_before_in"] = otherFlags, []string{"-", "-", "json", "color"}[warm]
+		desc["logger_time_layout"] = tsLayout
+		desc["other_flags"], desc["same_logger_logged_before_in"] = otherFlags, []string{"-", "-", "json", "color", "logfmt", "a record that panicked while being formatted (recovered)"}[warm]
 		payload, viols := run(cs)
 		if len(viols) == 0 {
 			c.R.Add("records_decoded", 1)
